@@ -3,7 +3,7 @@ package c16
 import (
 	"bytes"
 	"context"
-		"fmt"
+	"fmt"
 	"os"
 	"os/exec"
 	"path/filepath"
